@@ -137,8 +137,21 @@ def runC12 (line : String) : String :=
     | some vs =>
       if vs.isEmpty ∨ vs.length > 4096 ∨ ¬ ["n2", "n4", "n5", "n6", "n8", "n10", "n16", "s8"].contains name then "bad-case"
       else
+        -- where the binary32 evaluation of the code is one above the exact quantiser (the proved deviation sets: the
+        -- largest float below a tie) BOTH codes satisfy the property (`…_known_deviation`): the model prints
+        -- `code/nearest` there and the tie accepts either (a harmless change computing in f64 gives the nearest)
+        let bits? : Option Nat := match name with
+          | "n2" => some 2 | "n4" => some 4 | "n5" => some 5 | "n6" => some 6 | "n8" => some 8
+          | "n10" => some 10 | "n16" => some 16 | _ => none
+        let show1 (b code : Nat) : String :=
+          match bits? with
+          | some k =>
+            if CF32.isNaN b || CF32.isInf b then toString code else
+            let alt := Quant.q k (CF32.toRat b)
+            if alt == code then toString code else s!"{code}/{alt}"
+          | none => toString code
         match vs.mapM (QuantF32.field name) with
-        | some cs => "q " ++ ",".intercalate (cs.map toString)
+        | some cs => "q " ++ ",".intercalate ((vs.zip cs).map fun (b, c) => show1 b c)
         | none => "panic"
     | none => "bad-case"
   | ["int", name, bitsS, fam, patS, wS, hS, startS] =>
